@@ -42,7 +42,7 @@ func init() {
 		// ---- sync under the inline schedule ------------------------------------
 		"(*sync.WaitGroup).Add":  nop,
 		"(*sync.WaitGroup).Done": nop,
-		"(*sync.WaitGroup).Wait": nop,
+		"(*sync.WaitGroup).Wait": waitGroupWait,
 		"(*sync.Mutex).Lock":     nop,
 		"(*sync.Mutex).Unlock":   nop,
 		"(*sync.RWMutex).Lock":   nop,
@@ -562,3 +562,23 @@ func (fr *frame) fingerprint(sb *strings.Builder, v value, depth int) {
 }
 
 var _ = big.NewInt
+
+// waitGroupWait: under the inline schedule every goroutine has already run to completion, with its
+// channel sends queued without bound.  When Wait is called by the code that is also the only possible
+// receiver (not from inside a `go` body) and some open channel holds more values than its buffer can
+// take, the goroutines that sent the surplus would still be blocked in their send, Wait would never
+// return and nobody would ever receive: a deadlock of the real program, reported as a panic-class
+// violation ("DEADLOCK") rather than silently explored past.
+func waitGroupWait(fr *frame, a []value) value {
+	c := fr.i.ctx
+	if c.goDepth == 0 {
+		for _, ch := range c.chans {
+			if !ch.closed && len(ch.q) > ch.cap {
+				c.lastPanicSite = "DEADLOCK:" + fr.fn.String()
+				c.lastPanicStack = fr.stack()
+				panic(targetPanic{fmt.Sprintf("deadlock: sync.WaitGroup.Wait while %d goroutine(s) are blocked sending on a channel of capacity %d that only the waiting goroutine could drain", len(ch.q)-ch.cap, ch.cap)})
+			}
+		}
+	}
+	return nil
+}
